@@ -31,7 +31,7 @@ func init() {
 		Assumptions: []string{"partial-filter membership is decided by ref.Match (core domain); indexes whose filter or key path leaves the domain are compared with the rebuilt index only", "ties in a non-unique index are ordered by document address; the rebuilt index uses the same documents so the orders are comparable"},
 		Batches:     func(tier string) int { return 16 },
 		Require: func(tier string) map[string]int64 {
-			return map[string]int64{"calls": 5000, "inv_membership_docs": 20000, "inv_order_pairs": 5000, "inv_rebuilds": 5000, "partial_filtered_docs": 500, "multikey_docs": 1000,
+			return map[string]int64{"calls": 5000, "inv_membership_docs": 20000, "inv_order_pairs": 5000, "inv_rebuilds": 5000, "projected_reads": 1500, "inv_tree_entries_compared": 20000, "partial_filtered_docs": 500, "multikey_docs": 1000,
 				"index_recreate_same": 50, "index_conflicting_definition": 50, "txn_commits": 20, "txn_aborts": 20, "reloads": 20, "failed_calls": 500}
 		},
 		Run: func(c *fw.Ctx) { runIndexHistories(c, "C15") },
@@ -129,7 +129,151 @@ func specEqualsConfig(s drv.IndexSpec, cfg mongokit.IndexConfig) bool {
 	return exp == int64(cfg.Expiry)
 }
 
+// c15ReadsBetweenWrites: directed histories on collections whose indexes are
+// multikey over arrays inside embedded documents (one of them unique). Reads
+// with projections of every overlapping form aimed at a stored document
+// (parent inclusion plus operator overlay on the indexed array, nested
+// inclusions/exclusions, $elemMatch) alternate with writes that move, remove
+// and reuse index keys. The entries of an index are located by recomputing
+// the key tuples of the stored document, so a read that alters a stored
+// document leaves stale or unreachable entries behind: the invariants
+// (membership, entry-level rebuild differential, uniqueness) run after every
+// call.
+func c15ReadsBetweenWrites(c *fw.Ctx, id string) {
+	n := c.N(240, 4800) / c.NBatches
+	for q := 0; q < n; q++ {
+		idx := 7000000 + c.Batch*n + q
+		if c.Skip(idx) {
+			continue
+		}
+		r := c.Rand(idx)
+		var w *world
+		describe := func() interface{} {
+			if w == nil {
+				return nil
+			}
+			return map[string]interface{}{"history": w.history()}
+		}
+		c.Case(idx, describe, nil, func() {
+			c.Eval(1)
+			var err error
+			w, err = openWorld("")
+			if err != nil {
+				c.Inconclusive("open engine: " + err.Error())
+				return
+			}
+			defer w.close()
+			st := &mon.InvStats{}
+			violated := false
+			check := func(after string) {
+				for _, p := range mon.CheckCatalog(w.cat(), st) {
+					isUnique := p.Kind == "unique-violated" || p.Kind == "index-rebuild-fails"
+					if ((id == "C07") == isUnique) && !violated {
+						c.Violate("inv:"+p.Kind, fmt.Sprintf("after %s (reads with projections between writes): %s", after, p.String()),
+							map[string]interface{}{"history": w.history(), "state": mon.Dump(w.cat(), mon.DumpOpts{}).String()})
+						violated = true
+					}
+				}
+			}
+			run := func(op drv.Op) drv.Res {
+				res := w.exec(&op)
+				c.Count("calls", 1)
+				check(op.Kind)
+				return res
+			}
+			code := int32(0)
+			newDoc := func(i int) bson.D {
+				tags := bson.A{}
+				for k := r.Range(1, 4); k > 0; k-- {
+					code++
+					tags = append(tags, code)
+				}
+				xs := bson.A{}
+				for k := r.Range(0, 3); k > 0; k-- {
+					xs = append(xs, fw.Pick(r, []interface{}{int32(1), int32(2), "a", float64(2)}))
+				}
+				return bson.D{{Key: "_id", Value: int32(i)}, {Key: "c", Value: bson.D{{Key: "x", Value: xs}, {Key: "y", Value: int32(i % 3)}}},
+					{Key: "m", Value: bson.D{{Key: "t", Value: tags}, {Key: "sub", Value: bson.D{{Key: "l", Value: bson.A{int32(1), int32(2), int32(3)}}}}}}, {Key: "a", Value: int32(i % 2)}}
+			}
+			for _, spec := range []drv.IndexSpec{{Keys: bson.D{{Key: "c.x", Value: int32(1)}}}, {Keys: bson.D{{Key: "m.t", Value: int32(1)}}, Unique: true},
+				{Keys: bson.D{{Key: "m.sub.l", Value: int32(-1)}, {Key: "a", Value: int32(1)}}}} {
+				run(drv.Op{Kind: drv.CreateIndex, DB: "d", Coll: "c1", Index: spec})
+			}
+			next := 1
+			for ; next <= 5; next++ {
+				run(drv.Op{Kind: drv.InsertOne, DB: "d", Coll: "c1", Docs: []bson.D{newDoc(next)}})
+			}
+			steps := c.N(24, 40)
+			for s := 0; s < steps && !violated; s++ {
+				docs := w.peek("d", "c1")
+				if len(docs) == 0 {
+					run(drv.Op{Kind: drv.InsertOne, DB: "d", Coll: "c1", Docs: []bson.D{newDoc(next)}})
+					next++
+					continue
+				}
+				tgt := fw.Pick(r, docs)
+				byID := bson.D{{Key: "_id", Value: ref.GetPath(tgt, "_id")}}
+				if r.Chance(3, 5) {
+					// a read aimed at the target
+					proj := gen.Projection(r, tgt, gen.ProjOpts{NoInvalid: true, Overlap: r.Chance(3, 4)})
+					f := byID
+					if r.Chance(1, 3) {
+						f = bson.D{}
+					}
+					c.Count("projected_reads", 1)
+					switch r.Intn(4) {
+					case 0:
+						run(drv.Op{Kind: drv.Find, DB: "d", Coll: "c1", Filter: f, Projection: proj})
+					case 1:
+						run(drv.Op{Kind: drv.FindOne, DB: "d", Coll: "c1", Filter: f, Projection: proj})
+					case 2:
+						run(drv.Op{Kind: drv.FindOneAndUpdate, DB: "d", Coll: "c1", Filter: f, Projection: proj, ReturnAfter: r.Bool(),
+							Update: bson.D{{Key: "$inc", Value: bson.D{{Key: "n", Value: int32(1)}}}}})
+					default:
+						run(drv.Op{Kind: drv.FindOneAndUpdate, DB: "d", Coll: "c1", Filter: f, Projection: proj, ReturnAfter: true,
+							Update: bson.D{{Key: "$set", Value: bson.D{{Key: "a", Value: ref.GetPath(tgt, "a")}}}}}) // changes nothing
+					}
+					continue
+				}
+				// a write that moves, frees or reuses keys
+				switch r.Intn(6) {
+				case 0:
+					run(drv.Op{Kind: drv.DeleteOne, DB: "d", Coll: "c1", Filter: byID})
+				case 1:
+					// reuse the (unique) tags of a document deleted earlier or of the target
+					d := newDoc(next)
+					next++
+					if r.Bool() {
+						run(drv.Op{Kind: drv.DeleteOne, DB: "d", Coll: "c1", Filter: byID})
+						d[2].Value.(bson.D)[0].Value = gen.CloneValue(ref.GetPath(tgt, "m.t"))
+					}
+					run(drv.Op{Kind: drv.InsertOne, DB: "d", Coll: "c1", Docs: []bson.D{d}})
+				case 2:
+					code++
+					run(drv.Op{Kind: drv.UpdateOne, DB: "d", Coll: "c1", Filter: byID, Update: bson.D{{Key: "$push", Value: bson.D{{Key: "m.t", Value: code}, {Key: "c.x", Value: int32(3)}}}}})
+				case 3:
+					run(drv.Op{Kind: drv.UpdateOne, DB: "d", Coll: "c1", Filter: byID, Update: bson.D{{Key: "$pop", Value: bson.D{{Key: "m.t", Value: int32(1)}, {Key: "m.sub.l", Value: int32(-1)}}}}})
+				case 4:
+					d := newDoc(next)
+					next++
+					run(drv.Op{Kind: drv.ReplaceOne, DB: "d", Coll: "c1", Filter: byID, Update: d[1:]})
+				default:
+					run(drv.Op{Kind: drv.UpdateMany, DB: "d", Coll: "c1", Filter: bson.D{}, Update: bson.D{{Key: "$set", Value: bson.D{{Key: "a", Value: int32(s % 2)}}}}})
+				}
+			}
+			c.Count("inv_membership_docs", st.MembershipDocs)
+			c.Count("inv_order_pairs", st.OrderPairs)
+			c.Count("inv_rebuilds", st.Rebuilds)
+			c.Count("inv_tree_entries_compared", st.EntriesCompared)
+			c.Count("inv_unique_pairs", st.UniquePairs)
+			c.Count("multikey_docs", st.MultikeyDocs)
+			c.Count("inv_out_of_domain", st.OutOfDomain)
+		})
+	}
+}
+
 func runIndexHistories(c *fw.Ctx, id string) {
+	c15ReadsBetweenWrites(c, id)
 	nhist := c.N(1600, 48000) / c.NBatches
 	for q := 0; q < nhist; q++ {
 		idx := c.Batch*nhist + q
@@ -277,6 +421,7 @@ func indexHistory(c *fw.Ctx, id string, w *world, r *fw.Rand, steps int) {
 	c.Count("inv_membership_docs", st.MembershipDocs)
 	c.Count("inv_order_pairs", st.OrderPairs)
 	c.Count("inv_rebuilds", st.Rebuilds)
+	c.Count("inv_tree_entries_compared", st.EntriesCompared)
 	c.Count("inv_unique_pairs", st.UniquePairs)
 	c.Count("partial_filtered_docs", st.PartialFiltered)
 	c.Count("multikey_docs", st.MultikeyDocs)
